@@ -275,7 +275,7 @@ func init() {
 		Run:         runC20,
 		Exhaustive:  true,
 		Required: []string{"cases.none", "cases.eval_error", "cases.cancel_in_eval", "cases.cancel_in_epoch_evaluated", "cases.cancel_in_trial_started",
-			"cases.cancel_in_trial_finished", "cases.cancel_mid_epoch", "cases.parallel", "cases.no_observer", "cases.runner", "runner.stopped_after_interrupt", "cases.eval_error_solved", "cases.eval_error_deadline", "cases.long_runs_of_5_to_40_trials", "cases.trials_preallocated", "cases.experiment_reused_after_longer_run", "observer.is_the_evaluator", "observer.second_object", "observer.stateless_value", "observer.value_with_field", "evaluator.value_typed", "trials.solved", "trials.unsolved", "canceled.returned"},
+			"cases.cancel_in_trial_finished", "cases.cancel_mid_epoch", "cases.parallel", "cases.no_observer", "cases.runner", "runner.stopped_after_interrupt", "cases.eval_error_solved", "cases.eval_error_deadline", "cases.long_runs_of_5_to_40_trials", "cases.trials_preallocated", "cases.experiment_reused_after_longer_run", "observer.is_the_evaluator", "observer.second_object", "observer.stateless_value", "observer.value_with_field", "evaluator.value_typed", "cases.observer_asks_the_running_experiment_for_reports", "trials.solved", "trials.unsolved", "canceled.returned"},
 	})
 }
 
@@ -305,6 +305,9 @@ type c20Recorder struct {
 	armMid    bool
 	lastEval  [2]int
 	finishLen map[int]int
+	// exp, when set, is the running experiment: the observer callbacks ask it for a progress report
+	exp     *experiment.Experiment
+	reports int
 }
 
 func (rec *c20Recorder) add(ev c20Event) {
@@ -400,15 +403,30 @@ func (rec *c20Recorder) GenerationEvaluate(ctx context.Context, pop *genetics.Po
 func (rec *c20Recorder) TrialRunStarted(t *experiment.Trial) {
 	rec.mu.Lock()
 	defer rec.mu.Unlock()
+	rec.report()
 	rec.add(c20Event{"start", t.Id, 0})
 	if f := rec.cs.Fault; f.Kind == "cancel_in_trial_started" && f.R == t.Id {
 		rec.doCancel()
 	}
 }
 
+// report asks the running experiment what a progress report asks (read-only questions): asking must not change what is recorded
+func (rec *c20Recorder) report() {
+	if e := rec.exp; e != nil {
+		_ = e.MostRecentTrialEvalTime()
+		_, _, _ = e.AvgTrialDuration(), e.AvgEpochDuration(), e.AvgGenerationsPerTrial()
+		_, _, _ = e.TrialsSolved(), e.SuccessRate(), e.Solved()
+		_, _, _, _ = e.BestFitness(), e.BestSpeciesAge(), e.AvgDiversity(), e.EpochsPerTrial()
+		_, _, _ = e.BestOrganism(false)
+		_, _, _, _ = e.AvgWinnerStatistics()
+		rec.reports++
+	}
+}
+
 func (rec *c20Recorder) TrialRunFinished(t *experiment.Trial) {
 	rec.mu.Lock()
 	defer rec.mu.Unlock()
+	rec.report()
 	rec.add(c20Event{"finish", t.Id, 0})
 	rec.finishLen[t.Id] = len(t.Generations)
 	if f := rec.cs.Fault; f.Kind == "cancel_in_trial_finished" && f.R == t.Id {
@@ -569,8 +587,15 @@ func runC20(c *Ctx, idx int) {
 		evaluator = c20ValueEvaluator{rec: rec}
 		c.Count("evaluator.value_typed", 1)
 	}
+	if form%2 == 1 && cs.Prealloc != 2 {
+		// (not on the experiment with stale entries: those are shells without champions, no record a report could be made of)
+		rec.exp = &exp
+	}
 	startBefore := snapGenome(start)
 	runErr := exp.Execute(neat.NewContext(ctx, o), start, evaluator, observer)
+	if rec.reports > 0 {
+		c.Count("cases.observer_asks_the_running_experiment_for_reports", 1)
+	}
 	if d := diffGenomes(startBefore, snapGenome(start)); d != "" {
 		c.Violate("start-genome-modified", map[string]interface{}{"case": cs}, "Execute modified the start genome every trial is spawned from: %s", d)
 		return
